@@ -120,6 +120,9 @@ def _parse_operators_and_coefficient(
         coef = None
         operators_strs = parts
 
+    # A constant term is printed with a bare identity ("2.0*I"); it acts on no qubit.
+    operators_strs = [op_str for op_str in operators_strs if op_str != "I"]
+
     operators_dict = dict([_parse_operator(op_str) for op_str in operators_strs])
 
     if len(operators_dict) != len(operators_strs):
